@@ -7,6 +7,8 @@ from vf.common import be
 from vf.model import auction as A, play as P
 from vf.props import _play as PL
 
+import io
+
 ID = 'C19'
 USES_SIM = True
 LEVEL = 'exploration'
@@ -32,17 +34,88 @@ class Spin(BaseException):
     """The receiver kept reading after end-of-stream."""
 
 
-class ScriptedSocket:
-    def __init__(self, chunks):
-        self.chunks = [bytes(c) for c in chunks if c]
-        self.empty_reads = 0
-        self.sent = []
+class _Raw(io.RawIOBase):
+    """File view of a socket-like object (what socket.makefile() builds on), so that a receiver written with a buffered
+    reader meets the same scripted stream and the same end-of-stream accounting."""
 
-    def recv(self, n):
-        if not self.chunks:
+    def __init__(self, sock):
+        self._sock = sock
+
+    def readable(self):
+        return True
+
+    def writable(self):
+        return True
+
+    def readinto(self, b):
+        d = self._sock.recv(len(b))
+        b[:len(d)] = d
+        return len(d)
+
+    def write(self, b):
+        self._sock.sendall(bytes(b))
+        return len(b)
+
+
+class _SocketLike:
+    """The parts of the socket API a line receiver may reasonably use, on top of self._recv(n) / self._send(data)."""
+    empty_reads = 0
+
+    def _count(self, d):
+        if d == b'':
             self.empty_reads += 1
             if self.empty_reads >= 1000:
                 raise Spin()
+        return d
+
+    def recv(self, n, flags=0):
+        return self._count(self._recv(n))
+
+    def recv_into(self, buf, nbytes=0, flags=0):
+        d = self.recv(nbytes or len(buf))
+        buf[:len(d)] = d
+        return len(d)
+
+    def makefile(self, mode='r', buffering=None, *, encoding=None, errors=None, newline=None):
+        raw = _Raw(self)
+        if buffering == 0:
+            return raw
+        f = io.BufferedRWPair(raw, raw) if ('r' in mode and 'w' in mode) else io.BufferedWriter(raw) if 'w' in mode else io.BufferedReader(raw)
+        return f if 'b' in mode else io.TextIOWrapper(f, encoding=encoding, errors=errors, newline=newline)
+
+    def sendall(self, data, flags=0):
+        self._send(bytes(data))
+
+    def send(self, data, flags=0):
+        self._send(bytes(data))
+        return len(data)
+
+    def settimeout(self, t):
+        pass
+
+    def gettimeout(self):
+        return None
+
+    def setblocking(self, flag):
+        pass
+
+    def setsockopt(self, *a):
+        pass
+
+    def shutdown(self, how):
+        pass
+
+    def close(self):
+        pass
+
+
+class ScriptedSocket(_SocketLike):
+    def __init__(self, chunks):
+        self.chunks = [bytes(c) for c in chunks if c]
+        self.sent = []
+
+    def _recv(self, n):
+        if not self.chunks:
             return b''
         c = self.chunks[0]
         out, rest = c[:n], c[n:]
@@ -52,11 +125,42 @@ class ScriptedSocket:
             self.chunks.pop(0)
         return out
 
-    def sendall(self, data):
-        self.sent.append(bytes(data))
+    def _send(self, data):
+        self.sent.append(data)
+
+
+class RealPairSocket(_SocketLike):
+    """One end of a REAL socket.socketpair(); the chunks are written to the other end by a sender thread with a short pause
+    after each, then that end is closed.  Reads go to the real socket (5 s timeout = error, a safety net only)."""
+
+    def __init__(self, chunks):
+        import socket
+        import threading
+        import time
+        self._a, self._b = socket.socketpair()
+        self._b.settimeout(5.0)
+        self.sent = []
+
+        def feed():
+            try:
+                for c in chunks:
+                    if c:
+                        self._a.sendall(c)
+                        time.sleep(0.0003)
+            finally:
+                self._a.close()
+        self._t = threading.Thread(target=feed, daemon=True)
+        self._t.start()
+
+    def _recv(self, n):
+        return self._b.recv(n)
+
+    def _send(self, data):
+        self.sent.append(data)
 
     def close(self):
-        pass
+        self._t.join(5)
+        self._b.close()
 
 
 def plan(tier):
@@ -175,7 +279,7 @@ def check_card(card, seat, notation, variant, stats=None, mask=None):
 
 # ---- (c) ---------------------------------------------------------------------------------
 
-def check_framing(messages, cuts, eof, stats=None):
+def check_framing(messages, cuts, eof, stats=None, real=False):
     """messages: list of str; cuts: sorted byte offsets where the stream is split into chunks;
     eof: ('between', k) after k whole messages | ('inside', k, j) after j bytes of message k | ('after_cr', k)"""
     from bridge_env.network_bridge.socket_interface import MessageInterface
@@ -196,7 +300,16 @@ def check_framing(messages, cuts, eof, stats=None):
     cs = sorted({c % (len(stream) + 1) for c in cuts} | {0, len(stream)})
     chunks = [stream[a:b] for a, b in zip(cs, cs[1:])]
     case = {'messages': messages, 'chunks': [c.hex() for c in chunks], 'eof': [kind, k] + list(eof[2:3])}
-    sock = ScriptedSocket(chunks)
+    real = real and len(chunks) <= 8
+    for sock in [ScriptedSocket(chunks)] + ([RealPairSocket(chunks)] if real else []):
+        try:
+            _receive_all(MessageInterface, sock, messages, whole, kind, dict(case, socket='real socketpair') if isinstance(sock, RealPairSocket) else case)
+        finally:
+            sock.close()
+    _framing_stats(stats, enc, cs, kind, case, messages, stream, real)
+
+
+def _receive_all(MessageInterface, sock, messages, whole, kind, case):
     mi = MessageInterface(sock)
     for i in range(whole):
         try:
@@ -215,9 +328,14 @@ def check_framing(messages, cuts, eof, stats=None):
         pass
     else:
         raise Violation('receiver returned a message although the stream ended first', case, {'got': got, 'eof': kind})
+
+
+def _framing_stats(stats, enc, cs, kind, case, messages, stream, real):
     if stats is not None:
         stats.evaluated()
         stats.cls(f'end-of-stream {kind}')
+        if real:
+            stats.cls('streams also delivered over a real socketpair by a sender thread')
         split_multibyte = False
         pos = 0
         bounds = set(cs[1:-1])
@@ -267,10 +385,11 @@ def fuzz_target(k, stats):
                     'card': st.integers(0, 51), 'notation': st.sampled_from(['rank-suit', 'suit-rank']),
                     'mask': st.integers(0, 2 ** 60 - 1)})
 
-    def t(messages, cuts, eof, send):
-        check_framing(messages, cuts, eof, stats)
+    def t(messages, cuts, eof, send, real):
+        check_framing(messages, cuts, eof, stats, real=(real == 0))
         check_send(send, stats)
-    return (t, {'messages': st.lists(MSG, max_size=6), 'cuts': st.lists(st.integers(0, 400), max_size=12), 'eof': EOF_POS, 'send': MSG})
+    return (t, {'messages': st.lists(MSG, max_size=6), 'cuts': st.lists(st.integers(0, 400), max_size=12), 'eof': EOF_POS, 'send': MSG,
+                'real': st.integers(0, 24)})
 
 
 def run_shard(spec, seed, tier, stats):
